@@ -505,26 +505,39 @@ def adjointOf : Op K D → Op K D
 /-- the `.inverse` property -/
 def inverseOf (o : Op K D) : Op K D := flip S o INVERSE_BIT
 
-/-- SandwichOperator.make(bun, cheese, sampling_dtype) -/
-def mkSandwich (bun : Op K D) (cheese : Option (Op K D)) (dt : Nat) : Except String (Op K D) := do
-  let (bun, cheese) ← (match cheese with
-    | some (.sandwich ob oc _) => do
-        let b ← matmul S ob bun
-        pure (b, some oc)
-    | c => pure (bun, c) : Except String (Op K D × Option (Op K D)))
-  let cheese := match cheese with
-    | some c => c
-    | none => Op.scaling (tgt bun) S.kone dt
+/-- SandwichOperator.make, first part: a SandwichOperator as cheese is unpacked (`bun = old_cheese._bun @ bun`), a missing cheese
+    is the identity `ScalingOperator(bun.target, 1., sampling_dtype)` -/
+def sandwichArgs (bun : Op K D) (cheese : Option (Op K D)) (dt : Nat) : Except String (Op K D × Op K D) :=
+  match cheese with
+  | some (.sandwich ob oc _) =>
+      match matmul S ob bun with
+      | .ok b => .ok (b, oc)
+      | .error e => .error e
+  | some c => .ok (bun, c)
+  | none => .ok (bun, Op.scaling (tgt bun) S.kone dt)
+
+/-- SandwichOperator.make, second part: the scaling-bun shortcuts (`|g|² == 1`: the cheese itself; else `cheese.scale(|g|²)`)
+    or the chain `bun.adjoint @ cheese @ bun` -/
+def sandwichCore (bun cheese : Op K D) : Except String (Op K D) :=
   match bun with
   | .scaling _ c _ =>
-      let f := S.kabs2 c
-      if S.keq f S.kone then pure cheese else do
-        let op ← scale S cheese f
-        pure (Op.sandwich bun cheese op)
-  | _ => do
-      let t ← matmul S (adjointOf S bun) cheese
-      let op ← matmul S t bun
-      pure (Op.sandwich bun cheese op)
+      if S.keq (S.kabs2 c) S.kone then .ok cheese else
+      match scale S cheese (S.kabs2 c) with
+      | .ok op => .ok (Op.sandwich bun cheese op)
+      | .error e => .error e
+  | _ =>
+      match matmul S (adjointOf S bun) cheese with
+      | .error e => .error e
+      | .ok t =>
+        match matmul S t bun with
+        | .ok op => .ok (Op.sandwich bun cheese op)
+        | .error e => .error e
+
+/-- SandwichOperator.make(bun, cheese, sampling_dtype) -/
+def mkSandwich (bun : Op K D) (cheese : Option (Op K D)) (dt : Nat) : Except String (Op K D) :=
+  match sandwichArgs S bun cheese dt with
+  | .ok (b, c) => sandwichCore S b c
+  | .error e => .error e
 
 /-- BlockDiagonalOperator(domain, operators): `subdoms` are the domain ids of the keys, `ents[i] = none` for a missing key -/
 def mkBlock (dm : Nat) (subdoms : List Nat) (ents : List (Option (Op K D))) : Except String (Op K D) :=
